@@ -2157,6 +2157,8 @@ var rpcDirected = []string{
 	"1pB0,lB,lC0:0,pRQ0:boot:rX0,lR0,lZ",                                         // an embargoed bootstrap capability is released, then Close lifts the embargo
 	"1pB0,pF0:0,fW,pC1:eX0:2,pF1:1,fG,pB2",                                       // the Finish (releasing the result caps) is handled while the Return is still being written
 	"1pB0,pF0:0,fW,pC1:eX0:2,pF1:0,fG,pLX1:1,pB2",                                // … without releaseResultCaps, then an explicit Release
+	"1pB0,pF0:0,pC1:e0:8,fW,pF1:1,pL1:1,fG,pB2",                                  // D33: a Release for the export the Return is about to advertise arrives while the Return is being written (Finish with releaseResultCaps came first): the Conn aborts from the handler's goroutine
+	"1pB0,pF0:0,pC1:e0:8,fW,pF1:1,pL1:1,fG,lZ",                                   // … and Close afterwards returns
 	"0lB,pRQ0:boot:s1,lC0:0,fW,lr0,pRQ0:ok:s1,fG,lH0:0,lC1:0,pRQ0:ok,lR1,lY0",    // a descriptor for an import arrives while its Release is still being written
 	"0lB,pRQ0:boot:s1,lC0:0,fW,lr0,pRQ0:ok:s1+s1,fG,lH0:0,lY0,lC1:0,pRQ0:ok,lR1", // … two of them; the results are released first
 	"1fC,pB0,lZ",                             // the transport's Close fails: Close returns, Done is closed
